@@ -1,3 +1,82 @@
-import GV.Model.Engine
+/-
+  Props/C05.lean — Inbound publishes are acked correctly; QoS 2 messages surface exactly once.
+  About Model/Engine.lean: `handle_publish`, `handle_pubrel` (protocol.rs).
+-/
+import GV.Proofs.EngineBasics
 namespace GV.Props.C05
+open GV
+
+theorem createOp_enqueue_high (e : Engine) (p : Packet) :
+    let (e2, id) := e.createOp p none
+    e2.enqueue id .high false = some { e2 with highQ := e2.highQ ++ [id] } := by
+  simp [Engine.createOp, Engine.enqueue, Engine.op?, lookup_mapInsert_self]
+
+/-- the operation created to answer an inbound packet -/
+def answerOf (e : Engine) (p : Packet) : Op := { id := e.nextOpId, packet := p, user := none }
+
+/-- **QoS 0**: surfaced, nothing to acknowledge. -/
+theorem qos0_surfaced (e : Engine) (p : Publish) (hs : stateBlocksAcks e.state = false) (hq : p.qos = 0) :
+    e.handlePublish p = ({ e with outEvents := e.outEvents ++ [Packet.publish p] }, .ok) := by
+  simp [Engine.handlePublish, hs, hq]
+
+/-- **QoS 1**: surfaced once, and exactly one PUBACK with the publish's identifier joins the back of the
+    high-priority queue (so acknowledgements leave in arrival order). -/
+theorem qos1_surfaced_and_acked (e : Engine) (p : Publish) (hs : stateBlocksAcks e.state = false) (hq : p.qos = 1) :
+    let e' := (e.handlePublish p).1
+    (e.handlePublish p).2 = .ok ∧ e'.outEvents = e.outEvents ++ [Packet.publish p] ∧
+    e'.highQ = e.highQ ++ [e.nextOpId] ∧ e'.op? e.nextOpId = some (answerOf e (.puback { packetId := p.packetId })) ∧
+    e'.inQos2 = e.inQos2 := by
+  simp [Engine.handlePublish, hs, hq, Engine.createOp, Engine.enqueue, Engine.op?, lookup_mapInsert_self, answerOf]
+
+/-- **QoS 2**: always answered with a PUBREC for the same identifier; surfaced only if the identifier is not
+    already awaiting its PUBREL (a duplicate is acknowledged but not delivered again). -/
+theorem qos2_acked_surfaced_once (e : Engine) (p : Publish) (hs : stateBlocksAcks e.state = false) (hq : p.qos = 2) :
+    let e' := (e.handlePublish p).1
+    (e.handlePublish p).2 = .ok ∧
+    e'.highQ = e.highQ ++ [e.nextOpId] ∧ e'.op? e.nextOpId = some (answerOf e (.pubrec { packetId := p.packetId })) ∧
+    e'.outEvents = (if e.inQos2.contains p.packetId then e.outEvents else e.outEvents ++ [Packet.publish p]) ∧
+    e'.inQos2.contains p.packetId = true := by
+  have h0 : ¬ (p.qos = 0) := by omega
+  have h1 : ¬ (p.qos = 1) := by omega
+  simp only [Engine.handlePublish, hs, Bool.false_eq_true, ↓reduceIte, h0, h1]
+  by_cases hin : e.inQos2.contains p.packetId = true
+  · have hmem : p.packetId ∈ e.inQos2 := by simpa using hin
+    simp [hmem, Engine.createOp, Engine.enqueue, Engine.op?, lookup_mapInsert_self, answerOf]
+  · simp only [hin, Bool.false_eq_true, ↓reduceIte]
+    have hmem : (insertSorted p.packetId e.inQos2).contains p.packetId = true := by
+      have := (insertSorted_perm p.packetId e.inQos2).mem_iff (a := p.packetId)
+      simp only [List.contains_iff_mem]
+      exact this.mpr (List.mem_cons_self ..)
+    have hnm : ¬ (p.packetId ∈ e.inQos2) := by simpa using hin
+    have hmem' : p.packetId ∈ insertSorted p.packetId e.inQos2 := by simpa using hmem
+    simp [hnm, hmem', Engine.createOp, Engine.enqueue, Engine.op?, lookup_mapInsert_self, answerOf]
+
+/-- **PUBREL**: answered with a PUBCOMP for the same identifier and the identifier is released, so that a
+    later PUBLISH with it is a new message. -/
+theorem pubrel_answered_and_released (e : Engine) (a : Ack) (hs : stateBlocksAcks e.state = false) :
+    let e' := (e.handlePubrel a).1
+    (e.handlePubrel a).2 = .ok ∧ e'.highQ = e.highQ ++ [e.nextOpId] ∧
+    e'.op? e.nextOpId = some (answerOf e (.pubcomp { packetId := a.packetId })) ∧
+    e'.inQos2.contains a.packetId = false ∧ e'.outEvents = e.outEvents := by
+  simp [Engine.handlePubrel, hs, Engine.createOp, Engine.enqueue, Engine.op?, lookup_mapInsert_self, answerOf]
+
+/-- before the connection is established inbound application packets are a protocol error -/
+theorem not_before_connack (e : Engine) (p : Publish) (hs : stateBlocksAcks e.state = true) :
+    e.handlePublish p = (e, .err "ProtocolError") := by
+  simp [Engine.handlePublish, hs]
+
+/-- **A lost session forgets the QoS 2 receive state; a resumed one keeps it.** -/
+theorem session_lost_forgets (e : Engine) : (e.applySessionPresent false).1.inQos2 = [] := by
+  unfold Engine.applySessionPresent
+  simp only [Bool.not_false, ↓reduceIte]
+  have key : ∀ (l : List Nat) (en : Engine), en.inQos2 = [] → (l.foldl (fun en id => (en.unbind id).clearQos2 id) en).inQos2 = [] := by
+    intro l en h
+    exact foldl_preserves (fun en id => (en.unbind id).clearQos2 id) (fun en => en.inQos2 = [])
+      (fun en id h => by rw [clearQos2_inQos2, unbind_inQos2]; exact h) l en h
+  generalize hfa : Engine.failAll _ _ _ = fa
+  obtain ⟨ec, r⟩ := fa
+  simp only []
+  have := key ({ ec with inQos2 := [], allocated := [] } : Engine).userQ { ec with inQos2 := [], allocated := [] } rfl
+  repeat (first | split | exact this | simp only [this])
+
 end GV.Props.C05
